@@ -45,7 +45,7 @@ def is_type(d, x, t):
         if isinstance(x, int):
             return True
         # draft 6+: "any number with a zero fractional part"
-        return d >= 6 and isinstance(x, float) and x == int(x)
+        return d >= 6 and isinstance(x, float) and x == x and abs(x) != float("inf") and x == int(x)
     if t == "string":
         return isinstance(x, str)
     if t == "array":
